@@ -3,7 +3,7 @@
    Rows are flattened integer lists.  Definitions only. *)
 From Coq Require Import ZArith List Bool Arith.
 Import ListNotations.
-From FV.C09 Require Import Table AttrModel Model.
+From FV.C09 Require Import Table AttrModel Model PolyModel.
 
 (* comparison helpers (rows are flattened integer lists) *)
 Definition row := list Z.
@@ -90,10 +90,14 @@ Record mobs := { ob_mesh : mesh row; ob_ids : list Z; ob_types : list nat; ob_da
    operation (the only operation that changes the object); every other earlier
    call (the same or another extraction, extract_surface, extract_facets) must
    leave the object as it was, so the model ignores it *)
-Definition check (c : cfg) (m0 : mesh row) (pre : list edit) (removed_first : bool) (o : cop)
-           (ob : option mobs) : list nat :=
+(* mid: edits made through the update API AFTER the earlier call and before the
+   operation (history  edits ; earlier call ; edits ; operation  on one object):
+   the result must be that of the operation on the mesh as it is then *)
+Definition check_h (c : cfg) (m0 : mesh row) (pre : list edit) (removed_first : bool) (mid : list edit)
+           (o : cop) (ob : option mobs) : list nat :=
   let m1 := fold_left apply_edit pre m0 in
-  let m := if removed_first then match remove_useless_nodes c m1 with Some x => x | None => m1 end else m1 in
+  let m2 := if removed_first then match remove_useless_nodes c m1 with Some x => x | None => m1 end else m1 in
+  let m := fold_left apply_edit mid m2 in
   if negb (wf_mesh m) then [99%nat] else
   match apply_op c m o, ob with
   | None, None => []
@@ -111,3 +115,35 @@ Definition check (c : cfg) (m0 : mesh row) (pre : list edit) (removed_first : bo
                      && rows_eqb (s_data s) (ob_data b) then [] else [8%nat]
       end
   end.
+
+Definition check (c : cfg) (m0 : mesh row) (pre : list edit) (removed_first : bool) (o : cop)
+           (ob : option mobs) : list nat := check_h c m0 pre removed_first [] o ob.
+
+(* FEMData.convert_polyhedron on one face row: the converted row (None = the
+   call raised / the row is outside the model's domain), and what the faces
+   mean (node ids per face) before and after *)
+Definition check_poly (now new poly : list Z) (ob : option (list Z)) : bool :=
+  match convert_polyhedron now new poly, ob with
+  | Some r, Some o => zs_eqb r o
+  | None, None => true
+  | _, _ => false
+  end.
+
+Definition faces_eqb (a b : option (list (list Z))) : bool :=
+  match a, b with
+  | Some x, Some y => list_eqb' zs_eqb x y
+  | None, None => true
+  | _, _ => false
+  end.
+
+(* cut_with_element_ids on a polyhedron mesh with a 'face' variable: now = node ids of the parent
+   in storage order, new = node ids of the result, conns = connectivity of the retained elements,
+   pairs = (face row of the parent, face row of the result) per retained element.
+   1: result nodes are not np.unique of the retained connectivity; 2: result row differs from the
+   model's convert_polyhedron; 3: the faces name other node ids than before; 4: harness error *)
+Definition pcheck (now new : list Z) (conns : list (list Z)) (pairs : list (list Z * list Z)) : list nat :=
+  (if zs_eqb new (uniqueZ (concat conns)) then [] else [1%nat]) ++
+  (if forallb (fun pr => check_poly now new (fst pr) (Some (snd pr))) pairs then [] else [2%nat]) ++
+  (if forallb (fun pr => faces_eqb (faces_of now (fst pr)) (faces_of new (snd pr))) pairs then [] else [3%nat]) ++
+  (if forallb (fun pr => match faces_of now (fst pr) with Some _ => true | None => false end) pairs
+   then [] else [4%nat]).
